@@ -130,14 +130,16 @@ class C02(C01):
         junk = [object() for _ in range(rng.randint(1, 4000))]
         again = pc.prepare(case)
         del junk
-        obs["again"] = {"outcome": again["outcome"], "text_sha": again.get("text_sha"), "message": again.get("message")}
+        obs["again"] = {"outcome": again["outcome"], "text_sha": again.get("text_sha"), "message": again.get("message"),
+                        "second": (again.get("second") or {}).get("outcome")}
         # permuted insertion order, new corner numberings
         n = len(case["asm"]["blocks"])
         order = list(range(n))
         rng.shuffle(order)
         rots = [rng.randrange(24) for _ in range(n)]
         perm = pc.prepare(case, order=order, rots=rots)
-        obs["perm"] = {"outcome": perm["outcome"], "counts": geometric_counts(case, perm, rots), "order": order, "rots": rots}
+        obs["perm"] = {"outcome": perm["outcome"], "counts": geometric_counts(case, perm, rots), "order": order, "rots": rots,
+                       "second": (perm.get("second") or {}).get("outcome")}
         obs["geo_counts"] = geometric_counts(case, obs)
         if case.get("fresh_interpreters"):
             obs["fresh"] = fresh_interpreter_outcomes(case)
@@ -199,7 +201,20 @@ class C02(C01):
                                 }
                             )
                             break
+        # the same mesh written a second time: it must terminate, and — when no vertex was moved in between —
+        # end the same way with the same file
+        sec = impl.get("second") or {}
+        if sec.get("outcome") == "hang":
+            out.append({"site": "Mesh.write:hang:second-write", "what": "the second write of the same mesh did not return"})
+        elif sec.get("outcome") and not sec.get("stretched"):
+            if sec["outcome"] != oc:
+                out.append({"site": "Mesh.write:second-write-ends-differently", "what": f"first {oc}, second {sec['outcome']} ({sec.get('message')})"})
+            elif oc == "ok" and sec.get("same_text") is False:
+                out.append({"site": "Mesh.write:second-write-different-file", "what": "two writes of the same mesh differ"})
         ag = impl["again"]
+        for name in ("again", "perm"):
+            if impl[name].get("second") == "hang":
+                out.append({"site": "Mesh.write:hang:second-write", "what": f"second write did not return ({name}: {impl[name].get('order')} {impl[name].get('rots')})"})
         if ag["outcome"] != oc or ag.get("text_sha") != impl.get("text_sha"):
             out.append(
                 {
